@@ -595,8 +595,12 @@ func c17(c *core.Ctx) {
 	// real TLS handshakes with certificate verification ON: the URI's host (name, IPv4 or IPv6 literal) is what the
 	// client verifies; a certificate for another host must be refused
 	hs := []string{"stuns:tls.example.org", "turns:tls.example.org:443?transport=tcp", "stuns:192.0.2.7", "turns:192.0.2.7:5350?transport=tcp", "stuns:[2001:db8::7]", "turns:[2001:db8::7]?transport=tcp"}
-	c.SectionSerial("tls-handshake", int64(2*len(hs)), func(i int64, _ *gen.Rand) {
-		c17Handshake(c, hs[int(i)%len(hs)], int(i) < len(hs))
+	c.SectionSerial("tls-handshake", int64(3*len(hs)), func(i int64, _ *gen.Rand) {
+		preset := ""
+		if int(i) >= 2*len(hs) {
+			preset = "preset.example.net"
+		}
+		c17Handshake(c, hs[int(i)%len(hs)], int(i) < len(hs) || int(i) >= 2*len(hs), preset)
 		c.Distinct(gen.HashString(fmt.Sprintf("hs%d", i)))
 	})
 	// ... and all 5 x 3 hand-made combinations
@@ -653,7 +657,7 @@ func selfSigned(dns []string, ips []net.IP) (tls.Certificate, *x509.CertPool, er
 }
 
 // c17Handshake dials a secure URI whose server presents a certificate for exactly that host, verification ON.
-func c17Handshake(c *core.Ctx, raw string, certHostMatches bool) {
+func c17Handshake(c *core.Ctx, raw string, certHostMatches bool, presetServerName string) {
 	c.Eval(1)
 	u, err := stun.ParseURI(raw)
 	if err != nil {
@@ -679,6 +683,7 @@ func c17Handshake(c *core.Ctx, raw string, certHostMatches bool) {
 	pn := &pipeNet{}
 	cfg := &stun.DialConfig{Net: pn}
 	cfg.TLSConfig.RootCAs = pool
+	cfg.TLSConfig.ServerName = presetServerName // whatever the caller's config carries, the URI's host is the server name
 	client, derr := stun.DialURI(u, cfg)
 	if derr != nil || pn.server == nil {
 		c.Violate("dial-failed", "dial-failed", map[string]interface{}{"input": raw, "err": fmt.Sprint(derr)})
